@@ -3,11 +3,10 @@ from __future__ import annotations
 
 import ast
 
-from sa.astx import NotConst, body_walk, call_attr, call_name, const_eval, dotted, src, walk_local
+from sa.astx import call_attr, call_name, src, walk_local
 from sa.selftest import Mutant, Silent
 from sa.source import methods
-from sa.props._lib_j import (asserted_eq, asserted_in, edge_asserts, local_defs, names_loaded, no_exc, node_calls, normal_exits, params, resolve,
-                             rsrc)
+from sa.props._lib_j import asserted_eq, asserted_in, edge_asserts, local_defs, node_calls, normal_exits, params
 
 PROPERTY = "C54"
 FTPM = "protocols/ftp.py"
@@ -68,7 +67,7 @@ def _is_tosegments(e):
 
 
 def check(ctx):
-    mod = ctx.mod(FTPM)
+    ctx.mod(FTPM)
     # ================= (1) FTP protocol: only toSegments() results reach the shell =============================
     cls = ctx.cls(FTPM, "FTP")
     nsites = 0
@@ -80,6 +79,7 @@ def check(ctx):
             if op in SHELL_NON_PATH_OPS:
                 continue
             nsites += 1
+            ctx.functions.add(f"{FTPM}:FTP.{mname}")
             for i in range(PATH_ARITY.get(op, 1)):
                 where = ctx.construct(f"{QF}.FTP.{mname}", f"self.shell.{op}(<path argument {i}>)")
                 if i >= len(c.args):
@@ -232,6 +232,7 @@ def check(ctx):
             if mname in ("__init__", "_path"):
                 continue
             qm = f"{QF}.{cname}.{mname}"
+            ctx.functions.add(f"{FTPM}:{cname}.{mname}")
             pr = params(m)
             defs = {}
             # all bindings of local names, including for / comprehension targets (iter expression is the definition)
